@@ -141,7 +141,30 @@ def run(tier, seed):
                 fid = 'oos-handler-reenters' if ovf_reenters(p.m) else None
                 chk.violation('accepted program whose procedural reading goes round without consuming input: %s %s after %s' % (p.name, p.args, z[0]['hist']),
                               {'program': p.name, 'args': p.args, 'source': p.src, 'history': z[0]['hist']}, fid)
+        # bounded-exhaustive family: machines explored without building binaries (built lazily to confirm a report); reject side on all accepted
+        from props import enumfam
+        e_items, e_asts, e_info = enumfam.slice_(tier, seed)
+        e_progs = runner.compile_programs(e_items, want=('machine', 'codegen'))
+        e_ok = [p for p in e_progs if p.ok]
+        est, ecount, econf = enumfam.machine_reports(chk, e_ok, ('SPIN', 'YIELDLOCK'),
+                                                     lambda q, r, d: 'oos-handler-reenters' if (r['kind'] == 'SPIN' and ovf_reenters(q.m)) else None,
+                                                     budget=4000 if quick else 20000, timeout=1600 if quick else 9000)
+        e_pairs = [(p, a) for p, a in zip(e_progs, e_asts) if p.ok]
+        ecreports, ecst, _ = conform.explore(e_pairs, maxlen=6 if quick else 8, timeout=1500 if quick else 9000)
+        for e in ecst['errors']:
+            chk.machinery_error('TLC(Conform enumerated): ' + str(e)[:1500])
+        for (p, a), reps in zip(e_pairs, ecreports):
+            z = [r for r in reps if r['kind'] == 'ZEROPROGRESS']
+            if z:
+                zp += 1
+                chk.violation('accepted program whose procedural reading goes round without consuming input: %s %s after %s' % (p.name, p.args, z[0]['hist']),
+                              {'program': p.name, 'args': p.args, 'source': p.src, 'history': z[0]['hist']}, 'oos-handler-reenters' if ovf_reenters(p.m) else None)
+        kinds.update(ecount)
+        confirmed += econf
+        st['states'] += est['states'] + ecst['states']
+        st['transitions'] += est['transitions'] + ecst['transitions']
         chk.coverage = {
+            'enumerated_family': enumfam.describe(e_info, len(e_ok)),
             'states': st['states'] + cst['states'], 'transitions': st['transitions'] + cst['transitions'],
             'traces_validated_against_impl': confirmed + nwalk,
             'samples': [{'program': c['p'].name, 'args': c['p'].args, 'symbols': c['syms'], 'max_input_length': c['maxlen']} for c in cases[:3]],
